@@ -681,7 +681,6 @@ func c07Encoders(w *World, r *Report) {
 	}
 }
 
-
 // c07FrameLocalActions: the encoded actions a handler invocation stores into
 // its frame are its own: the variable is local to the per-frame closure, not
 // shared between the concurrently running handler goroutines.
